@@ -192,6 +192,13 @@ def parse_segments(text, version=None, encoding_chars=None, validation_level=Non
                         else:
                             current_parent.add(segment)
                         break
+            else:
+                if find_groups:
+                    # the segment has no place in the message structure (e.g. a Z-segment, a segment of
+                    # another message type, any segment of a Z-message): keep it as a direct child of the
+                    # message, after what has been parsed so far, instead of silently dropping it
+                    segment = parse_segment(s.strip(), version, encoding_chars, validation_level)
+                    segments.append(segment)
     return segments
 
 
